@@ -274,6 +274,39 @@ def ev_algebra(name, rec):
             if k not in seen:
                 seen.add(k)
                 frontier.append((u, None, d + 1))
+    # the statements a user writes on the shipped constant ITSELF: `x = const; x += date` (augmented assignment must rebind x,
+    # not rewrite the constant), `x = const + date`, `x = -const`; afterwards the constant is what it was
+    before = (canon(t0), t0.from_datum, t0.to_datum, t0.ref_epoch, id(t0.tf_sd))
+    for e in eps:
+        for stmt in ('iadd', 'add', 'neg', 'radd'):
+            x = t0
+            try:
+                if stmt == 'iadd':
+                    x += e
+                elif stmt == 'add':
+                    x = x + e
+                elif stmt == 'radd':
+                    try:
+                        x = e + x
+                    except TypeError:
+                        x = None
+                else:
+                    x = -x
+            except Exception as ex:
+                rec.fail('statement on a shipped constant raised', site='Transformation:statement:' + stmt, observed=ex, coords={'set': name})
+                continue
+            rec.transition()
+            now = (canon(t0), t0.from_datum, t0.to_datum, t0.ref_epoch, id(t0.tf_sd))
+            if now != before:
+                rec.fail('a statement on a shipped constant (%s) changed the constant itself' % stmt, site='Transformation:statement:' + stmt,
+                         observed=[t0.from_datum, t0.to_datum, str(t0.ref_epoch)], expected=[before[1], before[2], str(before[3])],
+                         coords={'set': name, 'epoch': str(e), 'stmt': stmt})
+                rec.outcome('constant-changed')
+                return
+            if stmt in ('iadd', 'add') and (x is t0 or x.ref_epoch != e or (x.from_datum, x.to_datum) != (t0.from_datum, t0.to_datum)):
+                rec.fail('const %s date does not give a new set at that epoch with the same labels' % ('+=' if stmt == 'iadd' else '+'),
+                         site='Transformation:statement:' + stmt, observed=[x is t0, str(x.ref_epoch), x.from_datum, x.to_datum],
+                         coords={'set': name, 'epoch': str(e)})
     rec.outcome('states=%d' % len(seen))
     rec.sample({'set': name, 'reachable_states_depth3': len(seen)})
 
